@@ -93,3 +93,7 @@ M("invmsym-T-minus", "bfgsmats.py", "    J = sp.linalg.cholesky(theta * STS + L 
 M("invmsym-sign-upper", "bfgsmats.py", "                np.vstack([-np.sqrt(D), np.zeros(D.shape)]),  # upper row\n", "                np.vstack([np.sqrt(D), np.zeros(D.shape)]),  # upper row\n", ["INVMSYM"])
 M("invmsym-sign-lower", "bfgsmats.py", "                np.vstack([np.sqrt(D), -(np.sqrt(invD) @ L.T).T]),  # upper row\n", "                np.vstack([np.sqrt(D), (np.sqrt(invD) @ L.T).T]),  # upper row\n", ["INVMSYM"])
 M("invmsym-bmv-factors-swapped", "bfgsmats.py", "        invMfactors[1],\n", "        invMfactors[0],\n", ["INVMSYM"])
+
+# ---- finding 15 (pinned form): the plain unit step
+M("stepinit-plain-unit-step", "linesearch.py", "        steplength_0 = min(1.0, max_steplength)\n", "        steplength_0 = 1.0\n", ["STEPINIT"], canary=True,
+  note="the tree as pinned before fix c03c79a")
